@@ -15,6 +15,7 @@ import (
 	"cmp"
 	"fmt"
 	"math/rand/v2"
+	"runtime/debug"
 	"slices"
 	"strings"
 	"sync"
@@ -121,42 +122,44 @@ type Config struct {
 }
 
 type Sim struct {
-	mu         sync.Mutex // protects everything below; never held across a park
-	cfg        Config
-	threads    map[uint64]*thread
-	order      []*thread
-	arrive     chan struct{}
-	rng        *rand.Rand // aux choices
-	schedRng   *rand.Rand
-	Strategy   string
-	rep        []SchedRun
-	repPos     int
-	repLeft    int
-	Sched      []SchedRun
-	Steps      int
-	last       *thread
-	runLen     int // consecutive steps given to last
-	conds      map[*sync.Cond][]*thread
-	keys       map[any]*thread
-	pools      map[*sync.Pool][]any
-	poolPolicy int
-	root       *thread
-	Stats      map[string]int
-	hash       uint64
-	Err        error
-	Stuck      bool
-	StepCap    bool
-	start      time.Time
-	SimTime    time.Duration
-	pctChange  []int
-	pctLow     float64
-	stallAt    []int
-	stallLen   []int
-	pairs      map[uint64]struct{}
-	lastSite   int32
-	mainDone   atomic.Bool
-	recent     [48]string
-	recentN    int
+	// ThreadPanics holds the panics (value + stack) of controlled goroutines that ended by an unrecovered panic.
+	ThreadPanics []string
+	mu           sync.Mutex // protects everything below; never held across a park
+	cfg          Config
+	threads      map[uint64]*thread
+	order        []*thread
+	arrive       chan struct{}
+	rng          *rand.Rand // aux choices
+	schedRng     *rand.Rand
+	Strategy     string
+	rep          []SchedRun
+	repPos       int
+	repLeft      int
+	Sched        []SchedRun
+	Steps        int
+	last         *thread
+	runLen       int // consecutive steps given to last
+	conds        map[*sync.Cond][]*thread
+	keys         map[any]*thread
+	pools        map[*sync.Pool][]any
+	poolPolicy   int
+	root         *thread
+	Stats        map[string]int
+	hash         uint64
+	Err          error
+	Stuck        bool
+	StepCap      bool
+	start        time.Time
+	SimTime      time.Duration
+	pctChange    []int
+	pctLow       float64
+	stallAt      []int
+	stallLen     []int
+	pairs        map[uint64]struct{}
+	lastSite     int32
+	mainDone     atomic.Bool
+	recent       [48]string
+	recentN      int
 }
 
 var (
@@ -349,6 +352,15 @@ func (s *Sim) startThread(t *thread, site int32, f func()) {
 	s.mu.Unlock()
 	s.park(t, stParked, site, nil)
 	defer func() {
+		// A panic in a controlled goroutine that nobody recovers would take the whole
+		// worker process down (as it would the real process). It is recorded instead,
+		// so that the run can report it - as a violation where the property says
+		// "never panics", as a harness error elsewhere - and the batch goes on.
+		if r := recover(); r != nil {
+			s.mu.Lock()
+			s.ThreadPanics = append(s.ThreadPanics, fmt.Sprintf("%v\n%s", r, debug.Stack()))
+			s.mu.Unlock()
+		}
 		s.mu.Lock()
 		t.st = stDone
 		delete(s.threads, g)
